@@ -462,6 +462,11 @@ func (s *Store) markDeleting(k Kind, ky string, cur Obj, addFinalizers []string)
 	s.stamps++
 	t := metav1.NewTime(epoch.Add(time.Duration(s.stamps) * time.Second))
 	o.SetDeletionTimestamp(&t)
+	if k == KPod && s.stamps%3 == 0 {
+		// every third pod deletion is a force delete (grace period 0) that still lingers
+		zero := int64(0)
+		o.SetDeletionGracePeriodSeconds(&zero)
+	}
 	o.SetFinalizers(append(append([]string{}, o.GetFinalizers()...), addFinalizers...))
 	if k == KSet || k == KBSet {
 		// deletionTimestamp on a CR bumps generation in the real registry
